@@ -48,5 +48,8 @@ func Int(r io.Reader, max *big.Int) (*big.Int, error) {
 			return big.NewInt(int64(vrt.NextRand() % uint64(n))), nil
 		}
 	}
+	if _, ours := r.(reader); ours && vrt.PlainRandInt != nil {
+		return big.NewInt(int64(vrt.PlainRandInt(int(max.Int64())))), nil
+	}
 	return rrand.Int(r, max)
 }
